@@ -1,10 +1,65 @@
 package main
 
+import (
+	"encoding/json"
+	"fmt"
+	"os"
+	"os/exec"
+	"path/filepath"
+	"regexp"
+	"strconv"
+	"strings"
+	"time"
+)
+
 // runExtras: checkers that are not SMT obligations (bounded stand-ins, enumerations over go/types)
 func runExtras(e *Engine, prop, tier string) []*extraResult {
 	var out []*extraResult
 	if prop == "C20" {
 		out = append(out, e.checkAcceptCompleteness())
 	}
+	if prop == "C05" {
+		out = append(out, runBoundedGoTest(prop, "bounded:SetLinks", "boltz", "c05_setlinks_test.go", "^TestVerifBoundedSetLinks$",
+			"linkCollectionImpl.SetLinks (sorted merge): exhaustive on the real code with a real bbolt file over 4 link targets (byte-order and prefix relations), every current set (16) x every requested list of length <= 4 over the targets plus one missing id, any order, duplicates allowed (781); checks the resulting set on both sides, IsLinked, a bystander entity, and that a missing target fails"))
+	}
 	return out
+}
+
+var reBoundedCases = regexp.MustCompile(`(?m)^BOUNDED-CASES (\d+)`)
+var reBoundedFail = regexp.MustCompile(`(?m)^BOUNDED-FAIL (.*)$`)
+
+// runBoundedGoTest runs a Go test file kept under /verif/bounded against the current /repo tree by injecting it with
+// `go test -overlay` (nothing is written into /repo). The result is a bounded stand-in: labelled so, never counted as proved.
+func runBoundedGoTest(prop, name, pkg, file, run, note string) *extraResult {
+	x := &extraResult{Name: name, Kind: "bounded", Note: note}
+	work := filepath.Join(verifDir, "work", prop+"-bounded")
+	os.MkdirAll(work, 0o755)
+	repo := repoDir()
+	ov := map[string]map[string]string{"Replace": {filepath.Join(repo, pkg, "zz_verif_bounded_"+file): filepath.Join(verifDir, "bounded", file)}}
+	b, _ := json.Marshal(ov)
+	ovPath := filepath.Join(work, "overlay.json")
+	os.WriteFile(ovPath, b, 0o644)
+	cmd := exec.Command("go", "test", "-overlay", ovPath, "-vet=off", "-count=1", "-timeout", "600s", "-v", "-run", run, "./"+pkg+"/")
+	cmd.Dir = repo
+	cmd.Env = append(os.Environ(), "GOFLAGS=-mod=mod", "GOPROXY=off", "GOSUMDB=off", "GOTOOLCHAIN=local")
+	t0 := time.Now()
+	outB, err := cmd.CombinedOutput()
+	out := string(outB)
+	os.WriteFile(filepath.Join(work, "output.txt"), outB, 0o644)
+	if m := reBoundedCases.FindStringSubmatch(out); m != nil {
+		x.Cases, _ = strconv.Atoi(m[1])
+	}
+	for _, m := range reBoundedFail.FindAllStringSubmatch(out, -1) {
+		x.Failures = append(x.Failures, m[1])
+	}
+	x.Note += fmt.Sprintf(" [%d cases, %.1fs]", x.Cases, time.Since(t0).Seconds())
+	if len(x.Failures) == 0 && (err != nil || x.Cases == 0) {
+		// the harness did not run to completion (does not compile against the tree, panicked, timed out)
+		tail := out
+		if len(tail) > 1500 {
+			tail = tail[len(tail)-1500:]
+		}
+		x.Failures = append(x.Failures, "harness did not complete: "+strings.ReplaceAll(strings.TrimSpace(tail), "\n", " | "))
+	}
+	return x
 }
